@@ -44,7 +44,8 @@ def _side_json(side):
     text = side["t"]
     rec = {"t": "" if text is None else hashlib.sha1(text.encode()).hexdigest()[:16],
            "D": side["D"], "N": side["N"], "u": side["u"],
-           "n": [{"o": o, "cat": c} for o, c in side["n"]], "s": side["s"]}
+           "n": [{"o": o, "cat": c} for o, c in side["n"]], "s": side["s"],
+           "st": side["st"]}
     return json.dumps(rec, sort_keys=True, separators=(",", ":"))
 
 
@@ -141,7 +142,8 @@ def _batch_file(pool, part, path):
             sides.append({"t": tid, "D": [item(x) for x in rec["D"]],
                           "N": [item(x) for x in rec["N"]],
                           "u": [item(x) for x in rec["u"]],
-                          "n": [item(x) for x in rec["n"]], "s": rec["s"]})
+                          "n": [item(x) for x in rec["n"]], "s": rec["s"],
+                          "st": [item(x) for x in rec["st"]]})
             sidx[gidx] = len(sides)
         return sidx[gidx]
     cases = []
